@@ -150,6 +150,14 @@ def run(ctx: Ctx) -> Result:
                 elif op == 'compile':
                     got = fresh_compile(h[1])
                     if got != baseline[h[1]]: viol(hist, idx, f'compile_script({h[1]!r}) = {baseline[h[1]]} (as in a fresh process)', got); return False
+                elif op == 'compile_rt':
+                    # a compile-time executed block sees the registries: its result depends on the *current* registry contents only
+                    src = 'push ~! { push d0 push x41 invoke }'
+                    got = fresh_compile(src)
+                    want = '0241' if b'A' in spec_ct else 'ERR'
+                    del log[:]
+                    if not (got == want or (want == 'ERR' and got.startswith('ERR'))):
+                        viol(hist, idx, f'compile_script({src!r}) with contract A ' + ('active' if b'A' in spec_ct else 'not active') + f' = {want}', got); return False
                 elif op == 'assemble':
                     try: got = P.assemble(P.get_symbols(h[1])).hex()
                     except BaseException as e: got = 'ERR:' + type(e).__name__
@@ -169,6 +177,37 @@ def run(ctx: Ctx) -> Result:
             al = {k: v for k, v in F.opcode_aliases.items() if k not in snap['aliases']}
             if al != spec_al: viol(hist, idx, f'aliases added = {spec_al}', al); return False
         return True
+    # the two built-in plugin scopes in a FRESH interpreter (no registry object rebuilt by this harness): an operation on one scope
+    # never shows in the other
+    def fresh_plugin_history(hist):
+        code = ("import sys, json; sys.path.insert(0, %r)\nimport tapescript.functions as F\n"
+                "def p1(t, s, c): pass\ndef p2(t, s, c): pass\nP = {'p1': p1, 'p2': p2}\nout = []\n"
+                "for h in json.load(sys.stdin):\n"
+                "    try:\n"
+                "        if h[0] == 'add': F.add_plugin(h[1], P[h[2]])\n"
+                "        elif h[0] == 'remove': F.remove_plugin(h[1], P[h[2]])\n"
+                "        else: F.reset_plugins(h[1])\n"
+                "    except BaseException as e: out.append('ERR:' + type(e).__name__); continue\n"
+                "    out.append({s: [f.__name__ for f in F._plugins.get(s, [])] for s in ('signature_extensions', 'check_template')})\n"
+                "print(json.dumps(out))\n" % REPO)
+        r = subprocess.run([sys.executable, '-c', code], input=json.dumps(hist), stdout=subprocess.PIPE, stderr=subprocess.PIPE, text=True, timeout=120)
+        try: return json.loads(r.stdout)
+        except Exception: return 'ERR: ' + r.stderr[-300:]
+    SE, CT = 'signature_extensions', 'check_template'
+    fresh_hists = [[('add', SE, 'p1')], [('add', CT, 'p1')], [('add', SE, 'p1'), ('reset', CT)], [('add', CT, 'p2'), ('reset', SE)],
+                   [('add', SE, 'p1'), ('add', CT, 'p2'), ('remove', SE, 'p2'), ('remove', CT, 'p1')], [('add', SE, 'p1'), ('add', SE, 'p2'), ('remove', CT, 'p1'), ('reset', CT), ('add', CT, 'p1'), ('reset', SE)]]
+    for hist in fresh_hists:
+        res.note_case(('fresh-plugins', tuple(hist)))
+        got = fresh_plugin_history(hist)
+        spec = {SE: [], CT: []}; want = []
+        for h in hist:
+            if h[0] == 'add' and h[2] not in spec[h[1]]: spec[h[1]].append(h[2])
+            elif h[0] == 'remove' and h[2] in spec[h[1]]: spec[h[1]].remove(h[2])
+            elif h[0] == 'reset': spec[h[1]] = []
+            want.append({k: list(v) for k, v in spec.items()})
+        if got != want:
+            viol([('fresh interpreter',)] + [tuple(h) for h in hist], next((i for i, (a_, b_) in enumerate(zip(got, want)) if a_ != b_), 0) if isinstance(got, list) else 0,
+                 f'active plugins per scope after each step: {want}', got)
     try:
         depth = ctx.n(4, 5)
         pl_letters = [('add_plugin', s, p) for s in scopes for p in plugs] + [('remove_plugin', s, p) for s in scopes for p in plugs] + [('reset_plugins', s) for s in scopes] + [('run',)]
@@ -179,6 +218,7 @@ def run(ctx: Ctx) -> Result:
             'interfaces': [('add_iface', 'iX'), ('add_iface', 'iY'), ('remove_iface', 'iX'), ('remove_iface', 'iY')],
             'aliases': [('add_alias', 'zz1', 'OP_TRUE'), ('add_alias', 'zz2', 'op_false'), ('add_alias', 'ZZ1', 'OP_DUP'), ('add_alias', 'true', 'OP_TRUE')],
             'compile': [('compile', s) for s in compile_probes[:3]] + [('assemble', compile_probes[0]), ('assemble', compile_probes[1])],
+            'compile_rt': [('add_contract', 'cA'), ('remove_contract', 'cA'), ('compile_rt',), ('compile', compile_probes[2])],
         }
         stop = False
         for ln in range(1, depth + 1):
@@ -193,7 +233,7 @@ def run(ctx: Ctx) -> Result:
                     if ln >= 5 and rng.random() > .3: continue
                     res.note_case((name,) + hist)
                     if not apply(hist) and len(res.violations) >= 6: break
-        all_letters = pl_letters + [l for v in small.values() for l in v] + [('compile', s) for s in compile_probes] + [('assemble', s) for s in compile_probes]
+        all_letters = pl_letters + [('compile_rt',)] + [l for v in small.values() for l in v] + [('compile', s) for s in compile_probes] + [('assemble', s) for s in compile_probes]
         for _ in range(ctx.n(1500, 30000)):
             hist = tuple(rng.choice(all_letters) for _ in range(rng.randrange(6, 41)))
             res.note_case(hist)
